@@ -33,7 +33,7 @@ ASSUMPTIONS = [
     "expected value = in-memory pruning of the no-skip round trip, so the C01 relaxations cancel; comparison is deq 'loaded' (strict, rng/logger by kind)",
     "attribute names are free of '/' and of the serializer's reserved metadata names (as in C01)",
 ]
-BUDGET = {"quick": {"soft_s": 75}, "thorough": {"soft_s": 540}}
+BUDGET = {"quick": {"soft_s": 150}, "thorough": {"soft_s": 900}}
 MIN_EVALUATIONS = {"quick": 150, "thorough": 2000}
 REQUIRED_COUNTERS = ["eval:save_time_skip", "eval:load_time_skip", "eval:save_and_load_skip", "eval:ptycho_skip_forms_differ", "eval:ptycho_skipped_name_present"]
 EXHAUSTIVE = {"quick": False, "thorough": False}
